@@ -27,38 +27,45 @@ theorem zeroRuleOk_iff (c r : Nat) : TD.zeroRuleOk c r = true ↔ (c = 0 ↔ r =
 theorem cmul_some {c r : Nat} (h : c * r < WORD) : cmul c r = some (c * r) := by simp [cmul, h]
 theorem cmul_none {c r : Nat} (h : ¬ c * r < WORD) : cmul c r = none := by simp [cmul, h]
 
-/-- `TooDee::new(c, r)`: accepted iff `shapeOk`; then dimensions `(c,r)`, invariant, every cell the default value. -/
-theorem C20_new (c r : Nat) (d : α) :
-    (shapeOk c r → ∃ t, TD.new c r d = .ok t ∧ t.Inv ∧ t.numCols = c ∧ t.numRows = r ∧
+/-- `TooDee::new(c, r)`: accepted iff `shapeOk` and a `Vec<T>` can hold `c*r` elements (`cap` = the capacity limit of the
+    element type, `allocOk`); then dimensions `(c,r)`, invariant, every cell the default value.  Otherwise `panic`. -/
+theorem C20_new (cap c r : Nat) (d : α) :
+    (shapeOk c r ∧ c * r ≤ cap → ∃ t, TD.new cap c r d = .ok t ∧ t.Inv ∧ t.numCols = c ∧ t.numRows = r ∧
         t.data = List.replicate (c * r) d) ∧
-    (¬ shapeOk c r → TD.new c r d = .error .panic) := by
+    (¬ (shapeOk c r ∧ c * r ≤ cap) → TD.new cap c r d = .error .panic) := by
   constructor
-  · rintro ⟨hz, hw⟩
+  · rintro ⟨⟨hz, hw⟩, hcap⟩
     refine ⟨⟨List.replicate (c * r) d, r, c⟩, ?_, ⟨by simp, hz, by simpa using hw⟩, rfl, rfl, rfl⟩
-    simp [TD.new, (zeroRuleOk_iff c r).2 hz, cmul_some hw]
+    simp [TD.new, (zeroRuleOk_iff c r).2 hz, cmul_some hw, allocOk, hcap]
   · intro h
     unfold TD.new
     by_cases hz : TD.zeroRuleOk c r = true
-    · have hw : ¬ c * r < WORD := fun hw => h ⟨(zeroRuleOk_iff c r).1 hz, hw⟩
-      simp [hz, cmul_none hw]
+    · by_cases hw : c * r < WORD
+      · have hcap : ¬ c * r ≤ cap := fun hc => h ⟨⟨(zeroRuleOk_iff c r).1 hz, hw⟩, hc⟩
+        simp [hz, cmul_some hw, allocOk, hcap]
+      · simp [hz, cmul_none hw]
     · simp [hz]
 
 /-- `TooDee::init(c, r, v)` -/
-theorem C20_init (c r : Nat) (v : α) :
-    (shapeOk c r → ∃ t, TD.init c r v = .ok t ∧ t.Inv ∧ t.numCols = c ∧ t.numRows = r ∧
+theorem C20_init (cap c r : Nat) (v : α) :
+    (shapeOk c r ∧ c * r ≤ cap → ∃ t, TD.init cap c r v = .ok t ∧ t.Inv ∧ t.numCols = c ∧ t.numRows = r ∧
         t.data = List.replicate (c * r) v) ∧
-    (¬ shapeOk c r → TD.init c r v = .error .panic) := by
+    (¬ (shapeOk c r ∧ c * r ≤ cap) → TD.init cap c r v = .error .panic) := by
   constructor
-  · rintro ⟨hz, hw⟩
+  · rintro ⟨⟨hz, hw⟩, hcap⟩
     have hw' : r * c < WORD := by rw [Nat.mul_comm]; exact hw
+    have hcap' : r * c ≤ cap := by rw [Nat.mul_comm]; exact hcap
     refine ⟨⟨List.replicate (r * c) v, r, c⟩, ?_, ⟨by simp [Nat.mul_comm], hz, by simpa using hw'⟩, rfl, rfl, by
       simp [Nat.mul_comm]⟩
-    simp [TD.init, (zeroRuleOk_iff c r).2 hz, cmul_some hw']
+    simp [TD.init, (zeroRuleOk_iff c r).2 hz, cmul_some hw', allocOk, hcap']
   · intro h
     unfold TD.init
     by_cases hz : TD.zeroRuleOk c r = true
-    · have hw : ¬ r * c < WORD := fun hw => h ⟨(zeroRuleOk_iff c r).1 hz, by rw [Nat.mul_comm]; exact hw⟩
-      simp [hz, cmul_none hw]
+    · by_cases hw : r * c < WORD
+      · have hcap : ¬ r * c ≤ cap := fun hc =>
+          h ⟨⟨(zeroRuleOk_iff c r).1 hz, by rw [Nat.mul_comm]; exact hw⟩, by rw [Nat.mul_comm]; exact hc⟩
+        simp [hz, cmul_some hw, allocOk, hcap]
+      · simp [hz, cmul_none hw]
     · simp [hz]
 
 /-- `TooDee::from_vec(c, r, v)` and `from_box`: additionally the buffer length must equal the product. -/
@@ -115,25 +122,53 @@ theorem C20_view_new (c r : Nat) (slice : Win) (n : Nat) (hn : slice.off + slice
     · simp [hz]
 
 /-- `default()` and `with_capacity(n)` give the empty array `(0,0)`, which satisfies the invariant. -/
-theorem C20_default : (TD.default : TD α).Inv ∧ ∀ n, (TD.withCapacity n : TD α) = TD.default :=
-  ⟨⟨rfl, Iff.rfl, by simp [TD.default, WORD]⟩, fun _ => rfl⟩
+theorem C20_default : (TD.default : TD α).Inv ∧
+    ∀ cap n, (TD.withCapacity cap n : Res (TD α)) = if n ≤ cap then .ok TD.default else .error .panic := by
+  refine ⟨⟨rfl, Iff.rfl, by simp [TD.default, WORD]⟩, fun cap n => ?_⟩
+  by_cases h : n ≤ cap <;> simp [TD.withCapacity, allocOk, h, TD.default]
 
-/-- derived `PartialEq`/`Eq`: two arrays are equal exactly when their dimensions and cells are equal -/
-theorem C20_eq_iff (a b : TD α) :
-    a = b ↔ (a.numCols = b.numCols ∧ a.numRows = b.numRows ∧ a.data = b.data) := by
-  constructor
-  · rintro rfl; exact ⟨rfl, rfl, rfl⟩
-  · rintro ⟨h1, h2, h3⟩; cases a; cases b; simp_all
+/-- `==` (`#[derive(PartialEq)]`, `TD.eqDerived`) for arrays satisfying the shape invariant: true exactly when the dimensions are
+    equal and every cell compares equal under the element type's `==` -/
+theorem C20_eq_derived (eqα : α → α → Bool) (a b : TD α) (ha : a.Inv) (hb : b.Inv) :
+    TD.eqDerived eqα a b = true ↔
+      (a.numCols = b.numCols ∧ a.numRows = b.numRows ∧
+        ∀ c r, c < a.numCols → r < a.numRows → ∃ x y, a.data[a.pos c r]? = some x ∧ b.data[b.pos c r]? = some y ∧ eqα x y = true) := by
+  sorry
 
-/-- derived `Hash` (any field-wise hasher `h`): equal arrays hash equally -/
-theorem C20_hash_eq {H : Type} (h : List α → Nat → Nat → H) (a b : TD α) (hab : a = b) :
-    h a.data a.numRows a.numCols = h b.data b.numRows b.numCols := by rw [hab]
+/-- with a lawful element equality (`eqα x y ↔ x = y`), `==` is equality of dimensions and cells -/
+theorem C20_eq_iff (eqα : α → α → Bool) (heq : ∀ x y, eqα x y = true ↔ x = y) (a b : TD α) :
+    TD.eqDerived eqα a b = true ↔ (a.numCols = b.numCols ∧ a.numRows = b.numRows ∧ a.data = b.data) := by
+  sorry
+
+/-- `#[derive(Hash)]` (`TD.hashFeed`): arrays that compare equal feed the hasher the same sequence, provided the element type
+    keeps the `Hash`/`Eq` contract (`eqα x y → hα x = hα y`) — so equal arrays hash equally under every hasher -/
+theorem C20_hash_eq (eqα : α → α → Bool) (hα : α → List Nat) (hc : ∀ x y, eqα x y = true → hα x = hα y) (a b : TD α)
+    (hab : TD.eqDerived eqα a b = true) : TD.hashFeed hα a = TD.hashFeed hα b := by
+  sorry
+
+/-- `clone()` (`#[derive(Clone)]`, `TD.clone`): same dimensions, the shape invariant, every cell the clone of the corresponding
+    cell; it compares equal to the original whenever clones compare equal to their originals.  (Independence — writing to one
+    does not change the other — is the value semantics of the model: the clone shares nothing with `t`; on the real crate it is
+    observed by the harness's `indep` flag.) -/
+theorem C20_clone (cl : α → α) (eqα : α → α → Bool) (t : TD α) (h : t.Inv) :
+    (t.clone cl).Inv ∧ (t.clone cl).numCols = t.numCols ∧ (t.clone cl).numRows = t.numRows ∧
+    (∀ c r, (t.clone cl).data[t.pos c r]? = (t.data[t.pos c r]?).map cl) ∧
+    ((∀ x, eqα (cl x) x = true) → TD.eqDerived eqα (t.clone cl) t = true) := by
+  sorry
+
+/-- converting into a `Vec`, a boxed slice or a by-value iterator yields the cells in row-major order: item number `r*C + c` is
+    cell `(c,r)`, there are `C*R` items, and the by-value iterator behaves as the ideal sequence over them -/
+theorem C20_into (t : TD α) (h : t.Inv) :
+    t.intoVec.length = t.numCols * t.numRows ∧ t.intoBox = t.intoVec ∧ t.intoIter = t.intoVec ∧
+    (∀ c r, c < t.numCols → r < t.numRows → t.intoVec[r * t.numCols + c]? = t.data[t.pos c r]?) ∧
+    t.intoVec = t.grid.flatten := by
+  sorry
 
 /-- non-vacuity: a concrete accepted and a concrete rejected request of each kind -/
 example : shapeOk 3 2 ∧ ¬ shapeOk 5 0 ∧ ¬ shapeOk 4294967296 4294967296 := by decide
 example : TD.fromVec 3 2 [1, 2, 3, 4, 5, 6] = .ok ⟨[1, 2, 3, 4, 5, 6], 2, 3⟩ := by
   simp [TD.fromVec, TD.zeroRuleOk, cmul, WORD]
-example : TD.new 5 0 (0 : Nat) = .error .panic := by simp [TD.new, TD.zeroRuleOk]
+example : TD.new 100 5 0 (0 : Nat) = .error .panic := by simp [TD.new, TD.zeroRuleOk]
 
 /-- a slice of the buffer, cell by cell -/
 theorem take_drop_eq_filterMap (l : List α) (a k : Nat) :
@@ -162,8 +197,8 @@ theorem getElem?_flatten_uniform (C : Nat) (l : List (List α)) (hl : ∀ r ∈ 
       simp
 
 /-- `From<view>` / `From<view_mut>`: exactly the view's dimensions, the shape invariant, and the viewed cells in row-major order -/
-theorem C20_from_view (m : Mode) (v : VW) (buf : List α) (h : v.Inv buf.length) :
-    ∃ t, v.toOwned m buf = .ok t ∧ t.Inv ∧ t.numCols = v.numCols ∧ t.numRows = v.numRows ∧
+theorem C20_from_view (m : Mode) (cap : Nat) (v : VW) (buf : List α) (h : v.Inv buf.length) (hcap : buf.length ≤ cap) :
+    ∃ t, v.toOwned m cap buf = .ok t ∧ t.Inv ∧ t.numCols = v.numCols ∧ t.numRows = v.numRows ∧
       t.data = ((List.range v.numRows).map fun r => (List.range v.numCols).filterMap fun c => buf[v.pos c r]?).flatten ∧
       ∀ c r, c < v.numCols → r < v.numRows → t.data[t.pos c r]? = buf[v.pos c r]? := by
   obtain ⟨it, hrows, hWF, hitv, _, _, habs⟩ := VW.rows_WF m v buf.length h
@@ -206,7 +241,8 @@ theorem C20_from_view (m : Mode) (v : VW) (buf : List α) (h : v.Inv buf.length)
   refine ⟨⟨((List.range v.numRows).map fun r =>
       (List.range v.numCols).filterMap fun c => buf[v.pos c r]?).flatten, v.numRows, v.numCols⟩,
     ?_, ⟨?_, h.zero, ?_⟩, rfl, rfl, rfl, ?_⟩
-  · simp only [VW.toOwned, umul_ok m _ _ hmul, hrows, hcol, ok_bind, pure_eq, hdata]
+  · have hal : allocOk cap (v.numCols * v.numRows) = true := by simp [allocOk]; omega
+    simp [VW.toOwned, umul_ok m _ _ hmul, hrows, hcol, hdata, hal]
   · show (List.flatten _).length = _
     rw [hlen, Nat.mul_comm]
   · show (List.flatten _).length < _
